@@ -360,7 +360,7 @@ func (t *streamableHTTPClientTransport) processEventData(
 	var jsonResp map[string]interface{}
 	if err := json.Unmarshal(rawMessage, &jsonResp); err == nil {
 		// Check if it has an ID that matches our request ID
-		if id, hasID := jsonResp["id"]; hasID && fmt.Sprintf("%v", id) == fmt.Sprintf("%v", reqID) {
+		if id, hasID := jsonResp["id"]; hasID && requestIDKey(id) == requestIDKey(reqID) {
 			return t.handleResponseMessage(jsonResp, &rawMessage)
 		}
 	}
